@@ -136,7 +136,7 @@ Slice ==
 \* Reshape / MustReshape / ReshapeFast of a CONTIGUOUS view aliases the storage (C02):
 \* the result is a live view with the same row-major offsets and the new shape.
 \* (Reshape of a non-contiguous view is an observation: a copy; see engine.)
-ShapesOfSize(n) == {s \in Shapes : Prod(s) = n}
+ShapesOfSize(n) == {s \in Shapes : Prod(s) = n} \cup {<<n>>, <<1, n>>, <<n, 1>>}   \* reshape targets
 Reshape ==
     /\ stores # <<>> /\ ~done /\ nR < MaxReshapes
     /\ \E vi \in ViewChoice :
